@@ -108,14 +108,17 @@ public:
 
 		~DisableQueueNotify()
 		{
+			bool shouldNotify = false;
 			{
 				// Decrease the counter with queueListMutex held, otherwise a thread in wait() that has
 				// just evaluated its predicate, but is not blocked yet, misses the notification below.
+				// The queue state is examined under the same lock, see emptyQueue().
 				std::lock_guard<Mutex> queueListLock(queue->queueListMutex);
 				--queue->queueNotifyCounter;
+				shouldNotify = queue->doCanProcess();
 			}
 
-			if(queue->doCanNotifyQueueAvailable() && ! queue->emptyQueue()) {
+			if(shouldNotify) {
 				queue->queueListConditionVariable.notify_one();
 			}
 		}
@@ -177,7 +180,9 @@ public:
 			QueuedEventArgumentsType(std::forward<A>(args)...)
 		});
 
-		if(doCanProcess()) {
+		// The event just enqueued is pending whatever emptyQueue() would say now,
+		// only a DisableQueueNotify can defer the notification.
+		if(doCanNotifyQueueAvailable()) {
 			queueListConditionVariable.notify_one();
 		}
 	}
@@ -194,14 +199,21 @@ public:
 			QueuedEventArgumentsType(std::forward<A>(args)...)
 		});
 
-		if(doCanProcess()) {
+		// The event just enqueued is pending whatever emptyQueue() would say now,
+		// only a DisableQueueNotify can defer the notification.
+		if(doCanNotifyQueueAvailable()) {
 			queueListConditionVariable.notify_one();
 		}
 	}
 
 	bool emptyQueue() const
 	{
-		return queueList.empty() && (queueEmptyCounter.load(std::memory_order_acquire) == 0);
+		// queueList and queueEmptyCounter must be read in one critical section of queueListMutex:
+		// processIf/processUntil put the unprocessed events back (under the mutex) before they
+		// release queueEmptyCounter, two unlocked reads can see an empty list before the put back
+		// and a zero counter after it while an event was pending all the time.
+		std::lock_guard<Mutex> queueListLock(queueListMutex);
+		return doEmptyQueue();
 	}
 	
 	void clearEvents()
@@ -473,9 +485,16 @@ public:
 	}
 
 protected:
+	// queueListMutex must be held
+	bool doEmptyQueue() const
+	{
+		return queueList.empty() && (queueEmptyCounter.load(std::memory_order_acquire) == 0);
+	}
+
+	// queueListMutex must be held
 	bool doCanProcess() const
 	{
-		return ! emptyQueue() && doCanNotifyQueueAvailable();
+		return ! doEmptyQueue() && doCanNotifyQueueAvailable();
 	}
 
 	bool doCanNotifyQueueAvailable() const
